@@ -3,7 +3,7 @@
 use crate::codec::{dec_value, enc_value};
 use crate::tlc::{Run, Tlc};
 use crate::util::{tool_error, Ctx};
-use crate::xml::{esc, item_definitions_xml_in_order, DMN_NS};
+use crate::xml::{esc, DMN_NS};
 use dmntk_feel::context::FeelContext;
 use dmntk_feel::values::Value;
 use dmntk_feel::Name;
@@ -28,9 +28,10 @@ fn literal(v: &Value) -> Option<String> {
 }
 
 /// `variant` spells the same item definitions differently: bit 0 - written top-down (every reference points forward in
-/// the document), bit 1 - the allowed values carry the expressionLanguage attribute with the FEEL URI of DMN 1.2.
+/// the document), bit 1 - the allowed values carry the expressionLanguage attribute with the FEEL URI of DMN 1.2,
+/// bit 2 - the item definitions are named like built-in types written with other capitals (Date, String, Number, ..).
 fn model_xml(t: &J, values: &[Value], direct: bool, variant: u64) -> (String, Vec<bool>) {
-  let (mut defs, top) = item_definitions_xml_in_order(t, variant & 1 == 1);
+  let (mut defs, top) = crate::xml::item_definitions_xml_named(t, variant & 1 == 1, variant & 4 == 4);
   if variant & 2 == 2 {
     defs = defs.replace("<allowedValues>", "<allowedValues expressionLanguage=\"https://www.omg.org/spec/DMN/20180521/FEEL/\">");
   }
@@ -125,6 +126,7 @@ pub fn check(mut ctx: Ctx, replay: Option<J>) -> ! {
       // the same definitions spelled differently (order of the definitions, expressionLanguage of the allowed values)
       if c["ty"]["d"] != "simple" || c["ty"]["av"] != "none" {
         recs.push(run_variant(c, false, 1 + (k as u64 % 3)));
+        recs.push(run_variant(c, false, 4 + (k as u64 % 2)));
       }
       if c["ty"]["d"] == "simple" && c["ty"]["av"] == "none" {
         recs.push(run_case(c, true)); // the built-in type name used directly as typeRef
